@@ -67,6 +67,8 @@ def gen_plan(rng, tier, run):
             # the PEL directory's own name (glob metacharacters, blanks, an id) and the terminal's encoding
             "dname": rng.choice(["D"] * 6 + ["pels[node0]", "run-1[a-z]", "logs*", "what?", "a b", "%08X" % pelgen.gen_id(rng)]),
             "stdout_encoding": rng.choice(["utf-8", "utf-8", "utf-8", "ascii", "latin-1"]),
+            # environment: on the BMC (built-in default directory, no -p) or on a workstation
+            "bmc": rng.random() < 0.2,
             # process model: every invocation in a fresh module set (= its own process) or all in one process
             "fresh": rng.random() < 0.4,
             "exclude": rng.sample(common.REFCODE_POOL, rng.randint(0, 5)) + ["B1234567"], "ops": []}
